@@ -429,7 +429,7 @@ func TestC18(t *testing.T) {
 			"tie or inversion between neighbours.",
 			"relative order of elements with equal keys is not asserted (sort.Sort is not stable)")
 		exhaustiveC18(ev)
-		kC18.Run(t, ev, perShard(pick(6000, 600000)))
+		kC18.Run(t, ev, perShard(pick(6000, 3000000)))
 		ev.requireClasses("C18:already-sorted", "C18:unsorted")
 	})
 }
